@@ -333,6 +333,20 @@ func encoderMaxima(pkg *packages.Package, fd *ast.FuncDecl) map[string]int64 {
 				clampOf[types.ExprString(be.X)] = c1
 			}
 		case *ast.AssignStmt:
+			// v = min(v, C) / v := min(expr, C): the builtin in place of the hand-written clamp
+			if len(x.Lhs) == 1 && len(x.Rhs) == 1 {
+				if c, ok := x.Rhs[0].(*ast.CallExpr); ok && len(c.Args) == 2 {
+					if id, isId := c.Fun.(*ast.Ident); isId && id.Name == "min" {
+						if _, isBuiltin := info.Uses[id].(*types.Builtin); isBuiltin {
+							for _, a := range c.Args {
+								if k, okK := eng.ConstInt64(eng.ConstOf(info, a)); okK {
+									clampOf[types.ExprString(x.Lhs[0])] = k
+								}
+							}
+						}
+					}
+				}
+			}
 			// a, b := v/U, v%U
 			if len(x.Lhs) == 2 && len(x.Rhs) == 2 {
 				q, ok1 := x.Rhs[0].(*ast.BinaryExpr)
